@@ -291,17 +291,142 @@ theorem mem_normOrd (n : Nat) (ord : List Nat) (a : Nat) (h : a < n) : a ∈ nor
     | false => rfl
     | true => exact absurd (List.contains_iff_mem.mp hcc) hc
 
-/-- After `demoteUnexecutables` over all accounts (as every reset runs it), EVERY account is in shape: pending
-gap-free from the state nonce, payable, within the block gas limit, queued transactions above — from any state that
-is structurally valid and whose queues were forwarded to the state nonce by the preceding promotion run. -/
-theorem demote_all_shape {s : State} (h : AllW s) (hQ : ∀ b, Q1 (s.acct b)) (ord : List Nat) :
-    ∀ b, Shape ((s.demoteUnexecutables (normOrd s.n ord)).acct b) (s.demoteUnexecutables (normOrd s.n ord)).maxGas := by
-  have := demoteUnexecutables_shape (normOrd s.n ord) h hQ [] (by simp)
+/-- After `demoteUnexecutables` over a list covering all accounts (as every reset runs it), EVERY account is in shape:
+pending gap-free from the state nonce, payable, within the block gas limit, queued transactions above — from any state
+that is structurally valid and whose queues were forwarded to the state nonce. -/
+theorem demote_cover_shape {s : State} (h : AllW s) (hQ : ∀ b, Q1 (s.acct b)) (L : List Nat) (hL : ∀ b, b < s.n → b ∈ L) :
+    ∀ b, Shape ((s.demoteUnexecutables L).acct b) (s.demoteUnexecutables L).maxGas := by
+  have := demoteUnexecutables_shape L h hQ [] (by simp)
   intro b
   by_cases hb : b < s.n
-  · exact this.2.2.1 b (.inr (mem_normOrd _ _ _ hb))
-  · have : ¬ b < (s.demoteUnexecutables (normOrd s.n ord)).n := by rw [this.2.2.2]; exact hb
+  · exact this.2.2.1 b (.inr (hL b hb))
+  · have : ¬ b < (s.demoteUnexecutables L).n := by rw [this.2.2.2]; exact hb
     rw [acct_default_of_ge this]
     exact shape_default _
+
+theorem demote_all_shape {s : State} (h : AllW s) (hQ : ∀ b, Q1 (s.acct b)) (ord : List Nat) :
+    ∀ b, Shape ((s.demoteUnexecutables (normOrd s.n ord)).acct b) (s.demoteUnexecutables (normOrd s.n ord)).maxGas :=
+  demote_cover_shape h hQ _ (fun b hb => mem_normOrd _ _ _ hb)
+
+/-! ### the promotion run forwards every visited queue to the state nonce -/
+
+/-- queues only shrink, nonces stay -/
+def QShrink (s s' : State) : Prop :=
+  s'.n = s.n ∧ ∀ b, (∀ x ∈ (s'.acct b).queue.txs, x ∈ (s.acct b).queue.txs) ∧ (s'.acct b).nonce = (s.acct b).nonce
+
+theorem QShrink.refl (s : State) : QShrink s s := ⟨rfl, fun _ => ⟨fun _ h => h, rfl⟩⟩
+theorem QShrink.trans {a b c : State} (h1 : QShrink a b) (h2 : QShrink b c) : QShrink a c :=
+  ⟨h2.1.trans h1.1, fun x => ⟨fun y hy => (h1.2 x).1 y ((h2.2 x).1 y hy), (h2.2 x).2.trans (h1.2 x).2⟩⟩
+theorem Same.qshrink {s s' : State} (h : Same s s') : QShrink s s' :=
+  ⟨h.n, fun b => by rw [h.acct b]; exact ⟨fun _ hx => hx, rfl⟩⟩
+theorem PFrame.qshrink {s s' : State} (h : PFrame s s') : QShrink s s' :=
+  ⟨h.1, fun b => by rw [(h.2.2.2 b).1, (h.2.2.2 b).2.1]; exact ⟨fun _ hx => hx, rfl⟩⟩
+
+theorem qshrink_upd (s : State) (a : Nat) (q' : TxList) (hsub : ∀ x ∈ q'.txs, x ∈ (s.acct a).queue.txs) :
+    QShrink s (s.upd a (fun ac => { ac with queue := q' })) := by
+  refine ⟨n_upd _ _ _, fun b => ?_⟩
+  rw [acct_upd]
+  split
+  · rename_i hc; obtain ⟨rfl, _⟩ := hc; exact ⟨hsub, rfl⟩
+  · exact ⟨fun _ hx => hx, rfl⟩
+
+theorem capQueue_qshrink (s : State) (a k : Nat) : QShrink s (s.capQueue a k) := by
+  unfold State.capQueue
+  simp only
+  generalize hcp : (if (s.acct a).isLocal = true then ([], (s.acct a).queue) else (s.acct a).queue.cap s.cfg.accountQueue) = cp
+  have hq : ∀ x ∈ cp.2.txs, x ∈ (s.acct a).queue.txs := by
+    subst hcp
+    split
+    · exact fun _ hx => hx
+    · intro x hx; rw [take_cap] at hx; exact mem_take hx
+  have h1 : QShrink s (((s.upd a (fun ac => { ac with queue := cp.2 })).allRemoveMany cp.1).pricedRemoved (k + cp.1.length)) :=
+    (qshrink_upd s a cp.2 hq).trans ((same_allRemoveMany _ _).trans (same_pricedRemoved _ _)).qshrink
+  split
+  · exact h1.trans (qshrink_upd _ a {} (by simp))
+  · exact h1
+
+theorem promoteAccount_q {s : State} (h : AllW s) (a : Nat) :
+    QShrink s (s.promoteAccount a) ∧ Q1 ((s.promoteAccount a).acct a) := by
+  unfold State.promoteAccount
+  simp only
+  split
+  · rename_i hemp
+    refine ⟨QShrink.refl _, ?_⟩
+    have : (s.acct a).queue.txs = [] := by simpa using hemp
+    intro q hq; rw [this] at hq; simp at hq
+  · rename_i hne
+    have hlt : a < s.n := lt_n_of_queue (by simpa using hne)
+    have hA := h a
+    have sp := queueScan_spec hA s.maxGas
+    simp only at sp
+    have same1 : Same s ((s.allRemoveMany (queueScan (s.acct a) s.maxGas).1).allRemoveMany (queueScan (s.acct a) s.maxGas).2.1) :=
+      (same_allRemoveMany _ _).trans (same_allRemoveMany _ _)
+    -- the remaining queue is not below the state nonce (Forward)
+    have hge : ∀ x ∈ (queueScan (s.acct a) s.maxGas).2.2.2.txs, (s.acct a).nonce ≤ x.nonce := by
+      intro x hx
+      have hs0 : Sorted (forwardN (s.acct a).queue.txs (s.acct a).nonce).2 := hA.qSorted.filter _
+      have fs := filter_spec ({ (s.acct a).queue with txs := (forwardN (s.acct a).queue.txs (s.acct a).nonce).2 } : TxList) false
+        (s.acct a).balance s.maxGas hs0 (fun y hy => hA.qCaps y (List.mem_filter.mp hy).1)
+      simp only at fs
+      have hx2 : x ∈ (readyN (({ (s.acct a).queue with txs := (forwardN (s.acct a).queue.txs (s.acct a).nonce).2 } : TxList).filter false
+          (s.acct a).balance s.maxGas).2.2.txs (s.acct a).pnGet).2 := hx
+      have hx3 := fs.1 x (by
+        have e := readyN_split (({ (s.acct a).queue with txs := (forwardN (s.acct a).queue.txs (s.acct a).nonce).2 } : TxList).filter false
+          (s.acct a).balance s.maxGas).2.2.txs (s.acct a).pnGet
+        rw [← e]; exact List.mem_append_right _ hx2)
+      have := (List.mem_filter.mp hx3).2
+      simpa using this
+    let s2 := ((s.allRemoveMany (queueScan (s.acct a) s.maxGas).1).allRemoveMany (queueScan (s.acct a) s.maxGas).2.1).upd a
+      (fun ac => { ac with queue := (queueScan (s.acct a) s.maxGas).2.2.2 })
+    have q12 : QShrink s s2 := same1.qshrink.trans (qshrink_upd _ a _ (by rw [same1.acct a]; exact sp.1))
+    have e2a : s2.acct a = { s.acct a with queue := (queueScan (s.acct a) s.maxGas).2.2.2 } := by
+      simp only [s2]; rw [acct_upd_self _ _ _ (by rw [same1.n]; exact hlt), same1.acct a]
+    have pf := promoteMany_pframe s2 a (queueScan (s.acct a) s.maxGas).2.2.1
+    have q23 : QShrink s2 (s2.promoteMany a (queueScan (s.acct a) s.maxGas).2.2.1) := pf.qshrink
+    have q34 := capQueue_qshrink (s2.promoteMany a (queueScan (s.acct a) s.maxGas).2.2.1) a
+      ((queueScan (s.acct a) s.maxGas).1.length + (queueScan (s.acct a) s.maxGas).2.1.length)
+    refine ⟨(q12.trans q23).trans q34, ?_⟩
+    intro q hq
+    have h1 := (q34.2 a).1 q hq
+    have h2 := (q23.2 a).1 q h1
+    rw [e2a] at h2
+    rw [(q34.2 a).2, (q23.2 a).2, e2a]
+    exact hge q h2
+
+/-- `promoteExecutables` over a list that covers every account with a non-empty queue: afterwards no queued
+transaction is below its account's state nonce -/
+theorem promoteExecutables_q1 (L : List Nat) {s : State} (h : AllW s) (hc : ∀ b, b ∈ L ∨ Q1 (s.acct b)) :
+    (∀ b, Q1 ((s.promoteExecutables L).acct b)) ∧ (s.promoteExecutables L).n = s.n := by
+  unfold State.promoteExecutables
+  induction L generalizing s with
+  | nil => exact ⟨fun b => by rcases hc b with hb | hb; simp at hb; exact hb, rfl⟩
+  | cons a rest ih =>
+    simp only [List.foldl_cons]
+    have pq := promoteAccount_q h a
+    have := ih (h.promoteAccount a) (by
+      intro b
+      rcases hc b with hb | hb
+      · simp only [List.mem_cons] at hb
+        rcases hb with rfl | hb
+        · exact .inr pq.2
+        · exact .inl hb
+      · right
+        intro q hq
+        rw [(pq.1.2 b).2]
+        exact hb q ((pq.1.2 b).1 q hq))
+    exact ⟨this.1, by rw [this.2, pq.1.1]⟩
+
+/-- The reorg run of a reset, after whatever the reset and the reinjection did: promotion over every account with a
+queue, then demotion over every account, leaves EVERY account in shape — from the structural invariant alone. -/
+theorem promote_then_demote_shape {s : State} (h : AllW s) (L1 L2 : List Nat)
+    (h1 : ∀ b, (s.acct b).queue.txs ≠ [] → b ∈ L1) (h2 : ∀ b, b < s.n → b ∈ L2) :
+    ∀ b, Shape (((s.promoteExecutables L1).demoteUnexecutables L2).acct b)
+      ((s.promoteExecutables L1).demoteUnexecutables L2).maxGas := by
+  have hq := promoteExecutables_q1 L1 h (by
+    intro b
+    by_cases hb : (s.acct b).queue.txs = []
+    · right; intro q hq; rw [hb] at hq; simp at hq
+    · exact .inl (h1 b hb))
+  exact demote_cover_shape (h.promoteExecutables L1) hq.1 L2 (fun b hb => h2 b (by rw [← hq.2]; exact hb))
 
 end YouVerif.C20
